@@ -20,7 +20,7 @@ from .core import Relation, err_kind
 
 PROP = "C02"
 CLAIMED = True
-COQ_MODULES = ["C02_Check", "C02_Tiling", "C02_Generations", "C02_Proofs"]
+COQ_MODULES = ["C02_Check", "C02_Tiling", "C02_Generations", "C02_Proofs", "C02_Cm"]
 PROPERTY_MODULE = "C02_Property"
 ALLOWED_AXIOMS = []
 RULE = (
